@@ -214,6 +214,7 @@ def run(ctx, rep):
     rep.ob("C08.identity-test", "copying an object reference copies the identity pointer (Gc::clone), not the token", "ok" if ok else "violated",
            "", oc.span, fn=oc.path)
     no_view_stored(F, rep, ctx)
+    code_labels(ctx, rep)
     # bin_op dispatches `is` to runtime_addr_check
     bo = need(F, "bytecode::instruction::implementations::bin_op")
     rep.ob("C08.identity-test", "bin_op dispatches to runtime_addr_check", "ok" if bo.calls_to("bytecode::variables::primitive::Primitive::runtime_addr_check") else "violated",
@@ -293,3 +294,64 @@ def F_all(ctx):
     if "f" not in _FALL:
         _FALL["f"] = ctx.facts("default", ["bytecode", "compiler"])
     return _FALL["f"]
+
+
+
+def code_labels(ctx, rep):
+    """A method call runs the code filed under the label of the object's class (`<file>#K::v`).  Labels of one file must be pairwise distinct,
+    or one class's objects run another class's methods.  A label is either generated from the file's counter (`poll_function_id`: distinct by
+    construction), a fixed literal used once (`__module__`), or spelled from a name the program chose - then the parser has to refuse a second
+    declaration of that name *anywhere in the file*.  A refusal that looks the name up in the scope stack (which forgets a scope when it
+    closes) does not do that."""
+    F = ctx.facts("default", ["compiler"])
+    n = 0
+    cls = F.fn("compiler::ast::class::<impl compiler::parser::Parser>::class")
+    if cls is None:
+        cands = [f for f in F.crates["compiler"].fns if f.path.endswith("::class") and "impl compiler::parser::Parser" in f.path]
+        if len(cands) != 1:
+            raise AnchorMissing("Parser::class")
+        cls = cands[0]
+    for f in F.crates["compiler"].fns:
+        if f.path.endswith("as core::clone::Clone>::clone"):
+            continue
+        for bi, si, dst, rv, s_ in f.assigns():
+            if not ("agg" in rv and rv["agg"].get("adt", "").endswith("CompiledFunctionId")):
+                continue
+            n += 1
+            v = rv["agg"].get("v")
+            l = op_local(rv["ops"][0]) if rv["ops"] else None
+            label = "%s builds a %s code label" % (mir.short(f.path), v)
+            key = "C08.code-label|%s|%s" % (mir.short(f.path), v)
+            if v == "Generated":
+                rep.ob("C08.code-label", label + " from the file's counter", "ok", "", s_.get("sp"), fn=f.path, key=key)
+                continue
+            org = rules.origins(f, l) if l is not None else set()
+            if org and all(o[0] == "const" for o in org):
+                rep.ob("C08.code-label", label + " from a fixed literal", "ok", str(sorted(o[1] for o in org)), s_.get("sp"), fn=f.path, key=key)
+                continue
+            # spelled from program-chosen names (the class name, possibly with a member name appended)
+            guard = None
+            scope_bound = []
+            for c in cls.calls():
+                g = F.fn(c.callee())
+                if g is None or not c.callee().startswith("compiler::parser::AssocFileData::"):
+                    continue
+                # a lookup of the class name whose answer is tested before the class is accepted
+                if not any(k in c.callee() for k in ("get_ident_from_name", "has_name_been", "get_dependency_flags", "get_type_from_str")):
+                    continue
+                guard = c
+                reads_scopes = any(any(e[0] == "field" and e[2] == "scopes" for e in (pl or {}).get("p", []))
+                                   for bi2, si2, d2, rv2, s2 in g.assigns()
+                                   for pl in [rv2.get("ref") or (mir.op_place(rv2["use"]) if "use" in rv2 else None)])
+                if reads_scopes:
+                    scope_bound.append(mir.short(c.callee()))
+            if guard is None:
+                st, why = "violated", "Parser::class never looks the class name up before accepting it"
+            elif scope_bound:
+                st, why = "violated", ("the label is spelled from the class name, and Parser::class refuses a duplicate only through %s, which reads the scope "
+                                       "stack: two classes of one name in different function bodies of a file get the same labels, the later replaces the "
+                                       "earlier and objects of the first run the second's methods" % sorted(set(scope_bound)))
+            else:
+                st, why = "ok", "duplicate class names are refused file-wide"
+            rep.ob("C08.code-label", label + " from a name that is unique in the file", st, why, s_.get("sp"), fn=f.path, key=key)
+    rep.floor("C08.code-label label constructions", n, 4)
